@@ -192,14 +192,38 @@ PROPS = {
         assumptions=["containment is lexical", "data-connection commands (STOR/APPE/RETR/LIST/NLST) are covered through "
                      "RealPath at the driver level, not over the wire"],
     ),
+    "C18": dict(
+        modules=["HT.Props.C18"],
+        streams=["c18id"],
+        rule="token: data directories prepared in every state a kill can leave (token file absent, empty, every proper "
+             "prefix of a token), the complete file, over-long / wrong-alphabet / trailing-newline contents, and tokens as "
+             "the generator produces them, each followed by 2..5 real starts (server.New with WithDataDir+WithToken); "
+             "key-value identities: restart histories of child processes on one data dir with varying service sets, the "
+             "key-without-certificate state prepared through the storage API, first starts killed at seeded instants; "
+             "non-trivial = a pre-existing token file / more than one start; distinct = distinct case line",
+        trusted=COMMON_TB + ["verif hook server/verif_hooks.go (read the token)", "badger Set atomic and durable; rename atomic "
+                             "(assumed)", "xid generates well-formed ids (assumed)"],
+        assumptions=["crash points of the key-value items are the states between atomic Sets"],
+    ),
 }
 
-HOOK_COMMITS = ["0596fc6", "c47bf54", "a8020ca"]
+HOOK_COMMITS = ["0596fc6", "c47bf54", "a8020ca", "beeea88"]
 
 NOT_BUILT = "check not built yet in this round (design in DESIGN.md section 7); not claimed until its theorems and correspondence stream exist"
 NOT_APPLICABLE = {("C%02d" % i): NOT_BUILT for i in range(1, 21)}
 
 MANIFEST_TEXT = {
+    "C18": dict(
+        text="Lean theorems: for every content of the token file (absent, empty, any prefix, garbage) a start comes up with a "
+             "well-formed token and every later start, whatever it generates, reports the same one (induction over restart "
+             "histories); stored secrets never change; after a kill at any point between the atomic stores of key and "
+             "certificate the next start completes the pair with the stored key and is stable from then on. Tied to "
+             "WithToken by runs on prepared data directories and to the storage functions by child-process restart histories.",
+        design_ref="DESIGN.md section 7, C18",
+        note="Partial: badger's and the kernel's crash consistency are assumed; kills of a starting child at random instants "
+             "are sampled, not enumerated.",
+        technique="Lean 4 proof (case analysis + induction over restart histories) + differential correspondence on prepared crash states",
+    ),
     "C11": dict(
         text="Lean theorems on path component lists: cleaning a rooted path leaves no empty/./.. component; RealPath of any "
              "path argument from any clean working directory is the root's components followed by such components (inside the "
